@@ -271,6 +271,8 @@ class GradFlow(Interp):
                 saved.append(b)
             if b.kind == "D":
                 saved += [a, b]
+                if a.kind == "D" and not self._floored(node.right, 0):
+                    self.sh.setdefault("unguarded_div", []).append((node, self.fi))
         elif isinstance(node.op, ast.Pow):
             if a.kind == "D":
                 saved.append(a)
@@ -283,6 +285,42 @@ class GradFlow(Interp):
                 v = self.mk(node, [a, b])
                 return GV("M" if v.kind == "D" else v.kind, v.tok, frozenset(), v.why, tensor=v.tensor)
         return self.mk(node, [a, b], saved=saved, save_result=res, tensor=True if (a.tensor or b.tensor) else (None if (a.tensor is None or b.tensor is None) else False))
+
+    def _floored(self, e: ast.AST, depth: int) -> bool:
+        """Is the expression bounded away from zero by construction (`v + eps`, clamp(min=eps), maximum(v, eps))?"""
+        if isinstance(e, ast.BinOp) and isinstance(e.op, ast.Add):
+            for side in (e.left, e.right):
+                if isinstance(side, ast.Constant) and isinstance(side.value, (int, float)) and side.value > 0:
+                    return True
+                if isinstance(side, ast.Attribute) and "eps" in side.attr:
+                    return True
+                if isinstance(side, ast.Name) and "eps" in side.id.lower():
+                    return True
+            return self._floored(e.left, depth) and self._floored(e.right, depth)
+        if isinstance(e, ast.Call):
+            nm = call_name(e) or ""
+            short = nm.split(".")[-1] if nm else (e.func.attr if isinstance(e.func, ast.Attribute) else "")
+            if isinstance(e.func, ast.Attribute):
+                short = e.func.attr
+            if short in ("clamp", "clip", "clamp_min"):
+                mn = next((k.value for k in e.keywords if k.arg == "min"), None)
+                if mn is None and short == "clamp_min" and e.args:
+                    mn = e.args[-1]
+                if mn is None and len(e.args) >= (2 if nm.startswith("torch.") else 1):
+                    mn = e.args[1 if nm.startswith("torch.") else 0]
+                return isinstance(mn, ast.Constant) and isinstance(mn.value, (int, float)) and mn.value > 0 or (isinstance(mn, ast.Name) and "eps" in mn.id.lower())
+            if short in ("maximum", "max") and len(e.args) == 2:
+                return any(isinstance(a_, ast.Constant) and isinstance(a_.value, (int, float)) and a_.value > 0 for a_ in e.args) or any(self._floored(a_, depth) for a_ in e.args)
+            if short in ("sqrt", "abs", "exp") and e.args:
+                return short == "exp" or self._floored(e.args[0], depth)
+            if short == "sqrt" and isinstance(e.func, ast.Attribute):
+                return self._floored(e.func.value, depth)
+        if isinstance(e, ast.Name) and depth < 4:
+            defs = [s_.value for s_ in ast.walk(self.fi.node) if isinstance(s_, ast.Assign) and any(isinstance(t, ast.Name) and t.id == e.id for t in s_.targets)]
+            return bool(defs) and all(self._floored(d, depth + 1) for d in defs)
+        if isinstance(e, ast.Constant) and isinstance(e.value, (int, float)):
+            return e.value != 0
+        return False
 
     def eval_UnaryOp(self, node, env):
         v = self.eval(node.operand, env)
@@ -374,6 +412,15 @@ class GradFlow(Interp):
                 tgt = None
             if isinstance(tgt, FuncInfo) and self.depth < 4:
                 return self.call_repo(tgt, args, kw, False, node)
+        # a fixed narrower dtype forced onto the signal itself (float64 / complex128 inputs lose precision)
+        if is_method and recv is not None and recv.kind == "D" and recv.tok.startswith("param:"):
+            narrow = short in ("float", "half", "cfloat", "bfloat16", "chalf")
+            if short in ("to", "type"):
+                for a_ in list(node.args) + [k.value for k in node.keywords if k.arg == "dtype"]:
+                    if attr_chain(a_) in ("torch.float", "torch.float32", "torch.cfloat", "torch.complex64", "torch.half", "torch.float16", "torch.bfloat16", "torch.complex32"):
+                        narrow = True
+            if narrow:
+                self.sh.setdefault("narrowing", []).append((node, self.fi))
         # views
         if is_method and short in VIEW_METHODS and recv is not None:
             v = self.mk(node, [recv], view_of=recv, tensor=recv.tensor if recv.tensor is not None else None)
@@ -592,6 +639,8 @@ class Verdict:
         self.conflicts: List[Tuple[ast.AST, str, Optional[ast.AST], FuncInfo]] = []  # (in-place node, how, saving site or None=input storage, function)
         self.benign_inplace: List[Tuple[ast.AST, str]] = []
         self.unknown_calls: List[Tuple[ast.AST, str]] = []
+        self.unguarded_div: List[Tuple[ast.AST, FuncInfo]] = []
+        self.narrowing: List[Tuple[ast.AST, FuncInfo]] = []
 
 
 def analyse(repo: Repo, fi: FuncInfo, cls: Optional[ClassInfo], signal: str, extra_env: Optional[Dict[str, GV]] = None) -> Verdict:
@@ -610,6 +659,16 @@ def analyse(repo: Repo, fi: FuncInfo, cls: Optional[ClassInfo], signal: str, ext
     it.run(env)
     out = Verdict()
     out.unknown_calls = list(it.sh["unknown_calls"])
+    seen_n = set()
+    for nd, f_ in it.sh.get("narrowing", []):
+        if id(nd) not in seen_n:
+            seen_n.add(id(nd))
+            out.narrowing.append((nd, f_))
+    seen_d = set()
+    for nd, f_ in it.sh.get("unguarded_div", []):
+        if id(nd) not in seen_d:
+            seen_d.add(id(nd))
+            out.unguarded_div.append((nd, f_))
     ret_deps: FrozenSet[Dep] = frozenset()
     for v, node, _e in it.returns:
         if v is None:
